@@ -1393,6 +1393,9 @@ func (g *Gen) invariantTerms(li *loopInfo, st *State, phiVals map[*ssa.Phi]strin
 			if cur == was {
 				continue
 			}
+			if excl, err := g.modifiedRefs(t); err != nil || len(excl) > 0 {
+				continue // the contract allows writes to pre-existing objects in this tag
+			}
 			terms = append(terms, fmt.Sprintf("(forall ((r Ref)) (! (=> (< (rb r) %s) (= (select %s r) (select %s r))) :pattern ((select %s r))))", g.oldFrontier, cur, was, cur))
 			clauses = append(clauses, &Clause{Kind: "invariant", Label: "preserves-old:" + t, Text: "objects older than the function entry are unchanged in " + t})
 			if phiVals == nil { // assumed at the loop head
